@@ -788,6 +788,12 @@ func (s *sharedEntryAttributes) Navigate(ctx context.Context, path []string, isR
 }
 
 func (s *sharedEntryAttributes) tryLoading(ctx context.Context, path []string) (Entry, error) {
+	// one on-demand insertion at a time, another validator might have loaded the child in the meantime
+	s.treeContext.lazyLoadMutex.Lock()
+	defer s.treeContext.lazyLoadMutex.Unlock()
+	if e, exists := s.childs.GetEntry(path[0]); exists {
+		return e, nil
+	}
 	upd, err := s.treeContext.GetTreeSchemaCacheClient().ReadRunningPath(ctx, append(s.Path(), path...))
 	if err != nil {
 		return nil, err
@@ -1516,10 +1522,21 @@ func (s *sharedEntryAttributes) AddCacheUpdateRecursive(ctx context.Context, c *
 	var exists bool
 	// if child does not exist, create Entry
 	if e, exists = s.childs.GetEntry(c.GetPath()[idx]); !exists {
-		e, err = newEntry(ctx, s, c.GetPath()[idx], s.treeContext)
+		// the new branch is built detached and linked into the tree once it is complete, such that
+		// validators running concurrently never find an entry that does not carry its value yet
+		e, err = newEntryDetached(ctx, s, c.GetPath()[idx], s.treeContext)
 		if err != nil {
 			return nil, err
 		}
+		result, err := e.AddCacheUpdateRecursive(ctx, c, flags)
+		if err != nil {
+			return nil, err
+		}
+		err = s.addChild(ctx, e)
+		if err != nil {
+			return nil, err
+		}
+		return result, nil
 	}
 	return e.AddCacheUpdateRecursive(ctx, c, flags)
 }
